@@ -542,6 +542,18 @@ class Trace:
                                 for e in view:
                                     if set(body[e]) != set(view[e]):
                                         self.add("C07", i, "first update for client %d lacks components of entity %d" % (c, e))
+                if ran and cfg.get("policy", "all") != "all":
+                    # an entity that became visible to a client at this tick needs an update message (checked in detail above
+                    # when there is one): no message at all means the entity never arrives
+                    for c in sorted(authorized):
+                        if c not in connected or c not in prev_view or c in auth_tick_pending:
+                            continue
+                        view_ = snapshots.get((epoch, tick_now, c))
+                        if view_ is None:
+                            continue
+                        gained_ = sorted(set(view_) - set(prev_view[c]))
+                        if gained_ and not any(l.startswith("upd %d " % c) for l in block):
+                            self.add("C08", i, "entities %r became visible to client %d at this tick but no update message was sent to it" % (gained_, c))
                 if ran:
                     for c in list(auth_tick_pending):
                         if c in authorized:
